@@ -99,6 +99,19 @@ def build_battery(content, labels, seed):
     add("pickle", lambda s: sview(pickle.loads(pickle.dumps(s))))
     add("copy", lambda s: sview(s.copy()))
     add("list_struct", lambda s: ls_rows(s.array.chunked_list_struct_array, ty))
+    if n >= 2 and all(r is not None for r in rows):
+        # the list view packed together with a list column in ANOTHER chunking (same number of chunks or not)
+        from nested_pandas.series.packer import pack_lists
+        cut = rng.randint(1, n - 1)
+        extra = gen.mk_list_array([[i] * l for i, l in enumerate(lens)], "int64")
+        for tag, bounds in (("2chunks", [0, cut, n]), ("3chunks", [0, cut, cut, n])):
+            ch = pa.chunked_array([extra.slice(a, b - a) for a, b in zip(bounds, bounds[1:])], type=extra.type)
+
+            def relist(s, ch=ch):
+                df = s.nest.to_lists()
+                df["extra"] = pd.Series(ch, dtype=pd.ArrowDtype(ch.type), index=df.index)
+                return sview(pack_lists(df, name="again"))
+            add(f"to_lists_pack_with_other_chunking.{tag}", relist)
     add("arrow_roundtrip", lambda s: colres(NestedExtensionArray(pa.array(s.array))))
     if n:
         pos = rng.randrange(n)
